@@ -80,7 +80,7 @@ def corpus(root):
     files = []
     for d, _, fs in os.walk(root):
         for f in fs:
-            if f.endswith(".sy") and not f.startswith("_"): files.append(os.path.join(d, f))
+            if f.endswith(".sy") and not f.startswith("_") and "/_" not in d[len(root):]: files.append(os.path.join(d, f))      # `_x` = helper of a multi-file test
     files.sort()
     return files
 
